@@ -6,6 +6,7 @@ require (
 	github.com/koykov/clock v1.1.4
 	github.com/koykov/dyntpl v0.0.0
 	github.com/koykov/inspector v1.4.6
+	github.com/koykov/x2bytes v1.0.2
 )
 
 require (
@@ -14,7 +15,6 @@ require (
 	github.com/koykov/byteconv v1.0.0 // indirect
 	github.com/koykov/byteseq v1.0.1 // indirect
 	github.com/koykov/entry v1.0.2 // indirect
-	github.com/koykov/x2bytes v1.0.2 // indirect
 	golang.org/x/sys v0.10.0 // indirect
 	golang.org/x/tools v0.11.1 // indirect
 )
